@@ -114,13 +114,14 @@ func uniFamily(c *hx.Ctx) []*uniProg {
 		u.render()
 		out = append(out, &u)
 	}
-	// true: every typed use × every observation × both orders; false, and an observation of the
-	// other boolean constant: the same matrix, one point in four in the quick tier
+	// every typed use × every observation × both orders, for true, for false, and with the
+	// observation using the other boolean constant (quick tier: one point in two of the first
+	// matrix, one in six of the others)
 	for _, konst := range []string{"true", "false"} {
 		for _, tf := range uniTypedForms {
 			for _, of := range uniObsForms {
 				for _, first := range []string{"typed", "obs"} {
-					if konst == "false" && c.Quick() && c.R.Intn(4) != 0 {
+					if c.Quick() && (konst == "true" && c.R.Intn(2) != 0 || konst == "false" && c.R.Intn(6) != 0) {
 						continue
 					}
 					add(uniProg{konst: konst, typ: "bool", typed: tf.name, obs: of.name, okon: konst, first: first})
@@ -130,7 +131,7 @@ func uniFamily(c *hx.Ctx) []*uniProg {
 	}
 	for _, tf := range uniTypedForms {
 		for _, of := range uniObsForms {
-			if c.Quick() && c.R.Intn(4) != 0 {
+			if c.Quick() && c.R.Intn(6) != 0 {
 				continue
 			}
 			add(uniProg{konst: "true", typ: "bool", typed: tf.name, obs: of.name, okon: "false", first: "obs"})
